@@ -195,7 +195,7 @@ Theorem reduce_meets_spec : forall c, c_fn c = FReduce -> in_domain c = true ->
   exists r, m_call c = Some r /\ s_call c = Some r.
 Proof.
   intros c F Hd. assert (Hb := Hd). split_dom Hb D2 D1 D0 D. get_bounds Hb B1 B2.
-  rewrite F in D. cbn in D. apply andb_true_iff in D as [G2 G3].
+  rewrite F in D. cbn in D. rename D into G3.
   unfold m_call, s_call. rewrite F. unfold m_reduce, s_reduce.
   assert (m_reduce_list c (elems (c_seq c)) = m_reduce_list c (elems (c_seq c))) as _ by reflexivity.
   set (l := elems (c_seq c)) in *.
@@ -213,11 +213,11 @@ Proof.
     { unfold s_end in *. destruct (c_end c) as [e|].
       - destruct (Nat.leb_spec e (length l)); [reflexivity|lia].
       - now rewrite firstn_all. }
-    assert ((match c_start c with None => Some (firstn (s_end c l) l) | Some st => if (st <? length (firstn (s_end c l) l))%nat then Some (skipn st (firstn (s_end c l) l)) else None end)
+    assert ((match c_start c with None => Some (firstn (s_end c l) l) | Some st => if (st <=? length (firstn (s_end c l) l))%nat then Some (skipn st (firstn (s_end c l) l)) else None end)
             = Some (slice (s_start c) (s_end c l) l)) as ->.
     { unfold slice. rewrite <- skipn_firstn_comm. unfold s_start in *. destruct (c_start c) as [st|].
-      - cbn in G2. apply Nat.ltb_lt in G2. rewrite firstn_length.
-        destruct (Nat.ltb_spec st (Nat.min (s_end c l) (length l))); [reflexivity|lia].
+      - rewrite firstn_length.
+        destruct (Nat.leb_spec st (Nat.min (s_end c l) (length l))); [reflexivity|lia].
       - reflexivity. }
     cbv zeta. destruct (map (key_app (c_key c)) (slice (s_start c) (s_end c l) l)) as [|x r] eqn:K.
     - assert (s_start c = s_end c l) as Heq.
